@@ -77,12 +77,17 @@ Globals(F) == Rng(GlobalSeq(F))
 Named(F, n) == {g \in Globals(F) : g.name = n}
 KindsOf(F, n) == {g.kind : g \in Named(F, n)}
 
-\* what a (possibly include-qualified) name denotes, seen from file f: a set of [h, kind, i]
-Denotes(P, f, r) ==
-  UNION {{[h |-> h, kind |-> g.kind, i |-> g.i] : g \in Named(FileOf(P, h), r.name)} : h \in HomesOf(P, f, r.q)}
+\* direct look-ups (the hot path of every rule and of the transcribed pipeline)
+HasIn(seq, n)   == \E i \in Idx(seq) : seq[i].name = n
+FirstIn(seq, n) == CHOOSE i \in Idx(seq) : seq[i].name = n /\ \A j \in 1..(i - 1) : seq[j].name # n
+HasTypeName(F, n) == HasIn(F.tds, n) \/ HasIn(F.enums, n) \/ HasIn(F.structs, n)
+HasAnyName(F, n)  == HasTypeName(F, n) \/ HasIn(F.consts, n) \/ HasIn(F.services, n)
 
-IsTypeRef(P, f, r)    == \E d \in Denotes(P, f, r) : d.kind \in TypeKinds
-IsServiceRef(P, f, r) == \E d \in Denotes(P, f, r) : d.kind = "service"
+\* what a (possibly include-qualified) name written in file f denotes
+DenotesAny(P, f, r)   == \E h \in HomesOf(P, f, r.q) : HasAnyName(FileOf(P, h), r.name)
+IsTypeRef(P, f, r)    == \E h \in HomesOf(P, f, r.q) : HasTypeName(FileOf(P, h), r.name)
+IsServiceRef(P, f, r) == \E h \in HomesOf(P, f, r.q) : HasIn(FileOf(P, h).services, r.name)
+IsConstRef(P, f, r)   == \E h \in HomesOf(P, f, r.q) : HasIn(FileOf(P, h).consts, r.name)
 
 -----------------------------------------------------------------------------
 (* types *)
@@ -112,12 +117,15 @@ NTypedefs(P) == LET RECURSIVE Sum(_)
 RECURSIVE CatF(_, _, _, _)
 CatF(P, f, t, fuel) ==
   IF t.n # "ref" THEN [cat |-> t.n, h |-> f, i |-> 0]
-  ELSE LET ds == {d \in Denotes(P, f, [q |-> t.q, name |-> t.name]) : d.kind \in TypeKinds}
-       IN IF ds = {} THEN [cat |-> "undef", h |-> f, i |-> 0]
-          ELSE LET d == CHOOSE x \in ds : \A y \in ds : <<x.h, x.i>> = <<y.h, y.i>> \/ x.h < y.h \/ (x.h = y.h /\ x.i <= y.i)
-               IN IF d.kind # "typedef" THEN [cat |-> d.kind, h |-> d.h, i |-> d.i]
-                  ELSE IF fuel = 0 THEN [cat |-> "cycle", h |-> f, i |-> 0]
-                  ELSE CatF(P, d.h, FileOf(P, d.h).tds[d.i].type, fuel - 1)
+  ELSE LET hs == {h \in HomesOf(P, f, t.q) : HasTypeName(FileOf(P, h), t.name)}
+       IN IF hs = {} THEN [cat |-> "undef", h |-> f, i |-> 0]
+          ELSE LET h == CHOOSE x \in hs : \A y \in hs : x <= y
+                   H == FileOf(P, h)
+               IN IF HasIn(H.tds, t.name)
+                  THEN IF fuel = 0 THEN [cat |-> "cycle", h |-> f, i |-> 0]
+                       ELSE CatF(P, h, H.tds[FirstIn(H.tds, t.name)].type, fuel - 1)
+                  ELSE IF HasIn(H.enums, t.name) THEN [cat |-> "enum", h |-> h, i |-> FirstIn(H.enums, t.name)]
+                  ELSE [cat |-> H.structs[FirstIn(H.structs, t.name)].cat, h |-> h, i |-> FirstIn(H.structs, t.name)]
 Cat(P, f, t) == CatF(P, f, t, NTypedefs(P) + 1)
 
 -----------------------------------------------------------------------------
@@ -174,11 +182,10 @@ EnumHasValue(P, hi, vn) ==
 Interpretations(P, f, parts) ==
   LET F == FileOf(P, f) IN
   CASE Len(parts) = 1 ->
-         IF \E g \in Named(F, parts[1]) : g.kind = "const" THEN 1 ELSE 0
+         IF HasIn(F.consts, parts[1]) THEN 1 ELSE 0
     [] Len(parts) = 2 ->
          (IF \E hi \in EnumOf(P, f, parts[1]) : EnumHasValue(P, hi, parts[2]) THEN 1 ELSE 0)
-         + Cardinality({i \in IncsWithPrefix(P, f, parts[1]) :
-                          \E g \in Named(FileOf(P, F.incs[i].target), parts[2]) : g.kind = "const"})
+         + Cardinality({i \in IncsWithPrefix(P, f, parts[1]) : HasIn(FileOf(P, F.incs[i].target).consts, parts[2])})
     [] Len(parts) = 3 ->
          Cardinality({i \in IncsWithPrefix(P, f, parts[1]) :
                         \E hi \in EnumOf(P, F.incs[i].target, parts[2]) : EnumHasValue(P, hi, parts[3])})
